@@ -197,7 +197,8 @@ def run(res, programs, tier):
             from . import c17b
             res.rule("R17.7", "(shared with C17) Repr::clone_from: the final sign fix-up reads the current sign of self")
             res.rule("R17.8", "(shared with C17) Repr::clone_from frees or reuses the destination buffer on every path")
-            c17b._r17_8c(res, P, cfgname)
+            from .c17 import storage_view
+            c17b._r17_8c(res, storage_view(P), cfgname)
         if "dashu_float" in P.units:
             _r15_6(res, P, cfgname)
             _r15_7(res, P, cfgname)
